@@ -17,6 +17,9 @@
   regex.print <text> <ic>              → ok <toPy (parse text)> | err …
   lru.run <size> <Lops>                → ok <results> <final keys>   (ops `g<key>` / `s<key>=<val>`)
   glob.cached <size> <Lops>            → ok <results> <final keys>   (ops `<cs><pat>\n<path>`)
+  cache.run <gsize> <wsize> <Lops>     → ok <results> <glob cache keys> <wildcard cache keys>
+      ops `<k><cs><pat>\n<subject>` with k = m (glob.match/imatch), g (Globber testing one path),
+      w (wildcard.match/imatch): `Glob.runAll` over both `_PATTERN_CACHE`s
 
   batch forms (one pattern × many subjects; reply `ok <string of 0/1>` or `err <class>`):
   regex.mtable <text> <ic> <Lsubjects>
@@ -84,6 +87,24 @@ def cachedRun (size : Nat) (ops : List Str) : String :=
   let (c, out) := ops.foldl step (LRU.empty size, [])
   "ok " ++ strList out.reverse ++ " " ++
     strList (c.entries.map fun e => (if e.1.2 then '1' else '0') :: e.1.1)
+
+def parseOp (op : Str) : Option Glob.CacheOp :=
+  match op with
+  | k :: c :: rest =>
+    let (pat, subj) := splitAt '\n' rest
+    let cs := c == '1'
+    if k == 'm' then some (.globMatch pat subj cs)
+    else if k == 'g' then some (.globber pat subj cs)
+    else if k == 'w' then some (.wildMatch pat subj cs)
+    else none
+  | _ => none
+
+def keyStr (k : Str × Bool) : Str := (if k.2 then '1' else '0') :: k.1
+
+def cacheRun (gsize wsize : Nat) (ops : List Str) : String :=
+  let (rs, st) := Glob.runAll ⟨LRU.empty gsize, LRU.empty wsize⟩ (ops.filterMap parseOp)
+  "ok " ++ strList (rs.map fun r => (tr bool r).toList) ++ " " ++
+    strList (st.glob.entries.map (keyStr ·.1)) ++ " " ++ strList (st.wild.entries.map (keyStr ·.1))
 
 def bits (l : List Bool) : String := String.ofList (l.map fun b => if b then '1' else '0')
 
@@ -194,6 +215,9 @@ def handle (cmd : String) (args : List String) : Option String :=
   | "lru.run" => do
       let n ← args[0]?; let ops ← argList args 1
       some (lruRun n.toNat! ops)
+  | "cache.run" => do
+      let g ← args[0]?; let w ← args[1]?; let ops ← argList args 2
+      some (cacheRun g.toNat! w.toNat! ops)
   | "glob.cached" => do
       let n ← args[0]?; let ops ← argList args 1
       some (cachedRun n.toNat! ops)
